@@ -19,7 +19,7 @@ from .common import COQ
 FOREIGN = 1_000_000
 COQ_MODEL = ["C14G/CfgSem.v", "C14G/CfgCheck.v"]
 COQ_PROOFS = ["C14G/CfgSemProofs.v", "C14G/ChainProofs.v", "C14G/FlipProofs.v", "C14G/TailProofs.v", "C14G/SplitProofs.v",
-              "C14G/PropsCfg.v"]
+              "C14G/PhiProofs.v", "C14G/PropsCfg.v"]
 IMPORTS = ("From Coq Require Import NArith String.\nFrom Verif Require Import C14G.CfgSem C14G.CfgCheck.\n"
            "Open Scope string_scope.\nOpen Scope Z_scope.\n")
 PASSES = ("SimplifyCFGPass", "BranchOptimizationPass", "TailMergePass", "CFGNormalization")
@@ -283,8 +283,6 @@ def export(kind, before, after):
     """-> dict(f, g, cert) as Coq text, or a string naming why the instance is outside the validator's domain"""
     if local_label_in_body(before) or local_label_in_body(after):
         return "a block label is used as data by a non-terminator instruction"
-    if not phis_independent(before) or not phis_independent(after):
-        return "a phi reads the output of an earlier phi of the same block (sequential phi model not applicable)"
     if kind == "flip":
         # the bypassed iszero must be defined in the block of the jnz (the validator keeps facts per block only)
         A = dict(after["blocks"])
@@ -401,6 +399,15 @@ def search(before, after, rnd, tries=40):
     for _ in range(tries):
         seed = rnd.getrandbits(64)
         tb, ta = run_trace(before, seed), run_trace(after, seed)
+        cut_b, cut_a = bool(tb) and tb[-1] == ("...",), bool(ta) and ta[-1] == ("...",)
+        if cut_b or cut_a:
+            # a run stopped by the step bound (the two functions need different numbers of silent steps): compare the
+            # events both have produced
+            tb, ta = (tb[:-1] if cut_b else tb), (ta[:-1] if cut_a else ta)
+            n = min(len(tb), len(ta)) if (cut_b and cut_a) else (len(tb) if cut_b else len(ta))
+            if (cut_b and not cut_a and len(ta) < len(tb)) or (cut_a and not cut_b and len(tb) < len(ta)):
+                n = min(len(tb), len(ta)) + 1       # the complete run is shorter than the truncated one: a real difference
+            tb, ta = tb[:n], ta[:n]
         if tb != ta:
             n = 0
             while n < min(len(tb), len(ta)) and tb[n] == ta[n]:
@@ -476,7 +483,7 @@ class Observer:
 
 def evaluate(items, name="c14g", timeout=600):
     exprs = [f"let f : func := {it['exp']['f']} in let g : func := {it['exp']['g']} in "
-             f"[if cfg_check f g ({it['exp']['cert']}) then 1 else 0]" for it in items]
+             f"[if cfg_check f g ({it['exp']['cert']}) then 1 else 0; if phis_indep f && phis_indep g then 1 else 0]" for it in items]
     if not exprs:
         return []
     return coqrun.eval_zlists(IMPORTS, exprs, name, shard=max(1, (len(exprs) + 7) // 8), timeout=timeout)
@@ -548,6 +555,57 @@ def run_regressions(obs):
     return out
 
 
+PHI_SWAP = """function runtime {
+  runtime:
+    %n = calldataload 0
+    %x = calldataload 32
+    %y = calldataload 64
+    %z = 0
+    jmp @head
+  head:
+    %i = phi @runtime, %z, @body, %i2
+    %a = phi @runtime, %x, @body, %b
+    %b = phi @runtime, %y, @body, %a
+    %c = lt %i, %n
+    jnz %c, @body, @exit
+  body:
+    %i2 = add %i, 1
+    jmp @head
+  exit:
+    %m = alloca 64
+    mstore %m, %a
+    %m2 = add %m, 32
+    mstore %m2, %b
+    return %m, 64
+}
+"""
+
+
+def backend_phi_semantics():
+    """The real back end (all levels) on pyrevm: phis that read each other's outputs (a swap carried around a loop) are
+    evaluated IN PARALLEL.  Returns a list of disagreements with the parallel reading."""
+    from vyper.compiler.phases import generate_bytecode
+    from vyper.compiler.settings import OptimizationLevel, Settings, VenomOptimizationFlags, set_global_settings
+    from vyper.venom import generate_assembly_experimental, run_passes_on
+    from vyper.venom.parser import parse_venom
+    from .evm import Chain
+    bad = []
+    set_global_settings(Settings(evm_version="cancun"))
+    for lvl in (OptimizationLevel.NONE, OptimizationLevel.GAS, OptimizationLevel.CODESIZE, OptimizationLevel.O3):
+        ctx = parse_venom(PHI_SWAP)
+        run_passes_on(ctx, VenomOptimizationFlags(level=lvl))
+        code, _ = generate_bytecode(generate_assembly_experimental(ctx, OptimizationLevel.O2))
+        ch = Chain("cancun")
+        addr = ch.set_code(None, code)
+        for n in range(4):
+            r = ch.call(addr, n.to_bytes(32, "big") + (5).to_bytes(32, "big") + (9).to_bytes(32, "big"))
+            got = (int.from_bytes(r.out[:32], "big"), int.from_bytes(r.out[32:64], "big")) if r.ok else None
+            want = (5, 9) if n % 2 == 0 else (9, 5)
+            if got != want:
+                bad.append({"level": lvl.name, "iterations": n, "returned": got, "parallel_reading": want, "ir": PHI_SWAP})
+    return bad
+
+
 # ------------------------------------------------------------------ entry points
 def prebuild(ctx):
     return ctx.coq_build_cached(COQ_MODEL + COQ_PROOFS)
@@ -590,6 +648,16 @@ def part_cfg_passes(ctx):
                 hangs.append("regression replays")
             finally:
                 signal.alarm(0)
+            phi_bad = []
+            try:
+                signal.alarm(60)
+                phi_bad = backend_phi_semantics()
+            except Hang:
+                hangs.append("phi swap through the back end")
+            except Exception as e:  # noqa
+                phi_bad = [{"error": f"{type(e).__name__}: {e}"[:300], "ir": PHI_SWAP}]
+            finally:
+                signal.alarm(0)
             try:
                 signal.alarm(120)
                 nfam = run_families(obs, rnd, 40 if quick else 400)
@@ -619,6 +687,10 @@ def part_cfg_passes(ctx):
                       {"programs": hangs})
     if obs.errors:
         ctx.violation("correspondence-broken", "cannot snapshot a pass invocation: " + obs.errors[0], {"errors": obs.errors[:5]})
+    for pb in phi_bad[:1]:
+        ctx.violation("failing-input", "the back end does not evaluate the phis of a block in parallel (or fails) on a swap carried around a loop",
+                      dict(pb, call="run_passes_on + generate_assembly_experimental + generate_bytecode, pyrevm, calldata = n,5,9"),
+                      key="backend-phi-parallel")
     for rg in regress[:2]:
         ctx.violation("failing-input", "the venom pipeline crashes on a program it must compile (regression of a repaired defect): "
                       + rg["error"][:120], rg, key="cfgpass-crash:BranchOptimizationPass")
@@ -666,7 +738,21 @@ def part_cfg_passes(ctx):
     nrep = 0
     verdicts = []
     if res is not None:
-        verdicts = [(it, r[0] == 1) for it, r in zip(ev_items, res)]
+        for it, r in zip(ev_items, res):
+            if r[1] != 1:
+                # sequential and parallel phis may differ on this function: outside the validator's model
+                msg = "a phi reads the output of an earlier phi of the same block (phis_indep = false)"
+                stats["unsupported"][msg] = stats["unsupported"].get(msg, 0) + 1
+                stats.setdefault("phis_not_independent_samples", [])
+                if len(stats["phis_not_independent_samples"]) < 3:
+                    stats["phis_not_independent_samples"].append({"pass": it["pass"], "origin": it["origin"],
+                                                                  "function": snap_text(it["before"])[:3000]})
+                w = search(it["before"], it["after"], rnd, tries=10)
+                if w is not None:
+                    it["witness"] = w
+                    verdicts.append((it, False))
+                continue
+            verdicts.append((it, r[0] == 1))
     verdicts += [(it, False) for it in todo if it["exp"] is None]
     rejected = []
     for it, ok in verdicts:
@@ -700,6 +786,7 @@ def part_cfg_passes(ctx):
     if not b["ok"] and not found:
         ctx.violation("theorem-broken", f"{b.get('failed_lemma')} in {b['file']}",
                       {"theorem": b.get("failed_lemma"), "file": b["file"], "coq_output": b["out"][-1500:]})
+    stats["backend_parallel_phi_runs"] = 16 - len(phi_bad)
     ctx.corr["cfg_passes"] = stats
     ctx.log(f"C14G: compile {t_compile:.1f}s, coq {stats.get('coq_seconds')}s, invocations {obs.calls}, distinct changing {len(obs.items)}, "
             f"accepted {stats['accepted']}, rejected {stats['rejected']}, unsupported {stats['unsupported']}")
